@@ -209,7 +209,7 @@ pub fn main(args: &Args) -> i32 {
         return sweep::replay(args);
     }
     let mut ev = Evidence::new(args, "exploration");
-    let families = vec![Family { menu: Menu::General, k: args.tier.pick(3, 4) }, Family { menu: Menu::Abstract, k: args.tier.pick(2, 4) }];
+    let families = vec![Family { menu: Menu::General, k: args.tier.pick(3, 5) }, Family { menu: Menu::Abstract, k: args.tier.pick(2, 5) }];
     let res = sweep::run(args, families);
     let mut verdict = Verdict::new("C17");
     for v in res.violations {
